@@ -146,7 +146,7 @@ ANNOTS = [None, None, "draft", "v2", "a_b"]
 
 # strings the emitter writes BARE (core3: Rt/BareWord.v): plain, dotted, dashed words, keyword-like prefixes, $VAR variables
 BARE = ["abc", "PROTOCOL_DEFINITION", "v1.2-x", "$USER:name", "$ctx", "trueish", "nullable", "vsx.y", "a.b.c", "x-y-z", "_lead",
-        "CamelCase", "falsey", "nullx", "$1", "Z9", "a_b.c-d", "ACTIVE", "done", "$a:b:c"]
+        "CamelCase", "falsey", "nullx", "$1", "Z9", "a_b.c-d", "ACTIVE", "done", "$a:b:c", "$KEY::value", "$HOME:", "$a:", "$:", "$x:y:"]
 _BARE_ON = [False]
 _CORE4 = [False]
 
